@@ -302,6 +302,18 @@ func c10DataDirs(fop *fakeOp) {
 	}
 }
 
+// the suite's settle gives up after 5 s, which a loaded machine can exceed for one change: same thing with a long timeout
+func (s *verifC10Suite) settleLong(c *C) {
+	s.state.Unlock()
+	defer s.state.Lock()
+	if err := s.o.Settle(2 * time.Minute); err != nil {
+		s.state.Lock()
+		defer s.state.Unlock()
+		s.logTasks(c)
+		c.Fatalf("settle: %v", err)
+	}
+}
+
 // one operation = one change (or a refusal). State lock held by the caller.
 func (s *verifC10Suite) runOp(c *C, op c10Op, run *c10Run, fail int) c10Step {
 	st := s.state
@@ -465,7 +477,7 @@ func (s *verifC10Suite) runOp(c *C, op c10Op, run *c10Run, fail int) c10Step {
 		}
 		step.K = k
 		s.fakeBackend.maybeInjectErr = func(fop *fakeOp) error { c10DataDirs(fop); return nil }
-		s.settle(c)
+		s.settleLong(c)
 		s.fakeBackend.maybeInjectErr = nil
 		step.Status = chg.Status().String()
 		if !chg.IsReady() {
